@@ -23,7 +23,7 @@
 EXTENDS ResolveImpl
 
 IsDepTerm(t) == t.k # "cls"
-IsDepMeth(m) == \E p \in DOMAIN m.pos : IsDepTerm(m.pos[p])
+IsDepMeth(m) == (\E p \in DOMAIN m.pos : IsDepTerm(m.pos[p])) \/ (\E q \in DOMAIN m.kwt : IsDepTerm(m.kwt[q]))
 
 (* the generated condition for one argument *)
 CondT(t, a) ==
@@ -97,6 +97,7 @@ KF_overlap_literals(W, M, call) ==
 (* _pull: a rank is "the best candidate plus everything it does not dominate": when the best  *)
 (* candidate is a dependent method whose condition fails, methods it dominated are skipped     *)
 KF_pull_rank(W, M, call) ==
-  \E d \in M : IsDepMeth(d) /\ ~Applicable(W, d, call) /\ ArityOk(d, call)
+  \E d \in M : IsDepMeth(d) /\ ~Applicable(W, d, call) /\ ArityOk(d, call) /\ KwNamesOk(d, call)
      /\ \A p \in DOMAIN call.pos : ImplSubT(W, call.pos[p].c, d.pos[p])
+     /\ \A q \in DOMAIN call.kwn : ImplSubT(W, call.kwa[q].c, d.kwt[KwIdx(d, call.kwn[q])])
 =============================================================================
